@@ -46,7 +46,7 @@ CHECKS = {
     "C07": dict(
         level="model_checking",
         technique="TLA+ spec Record (authenticated channel + bounded active adversary) model-checked by TLC; every canonical adversary schedule TLC generates is executed by a record-level man in the middle between real established GMSSL connections; record-layer hooks traced from the real code are validated by TLC (HalfConnTrace: sequence numbers, nonces/IVs, sticky error)",
-        text="TLC proves Prefix/SeqByOne/Sticky for the channel model with a free adversary (3-4 records, 3 actions) and enumerates all canonical schedules of <=2 actions with concrete instances (header field rewrites incl. type->alert/CCS on alert-like payloads, IV/body/MAC byte flips, truncation/extension, drop, dup, swap, forged / other-direction / other-connection records); each runs against both GMSSL suites and both directions: what Read returned must be exactly the predicted prefix and the first affected record must end the connection with a fatal error; single-bit flips over a whole record; every encrypt/decrypt/CCS/error of every run is validated by the half-connection trace spec.",
+        text="TLC proves Prefix/SeqByOne/Sticky for the channel model with a free adversary (3-4 records, 3 actions) and enumerates all canonical schedules of <=2 actions with concrete instances (header field rewrites incl. type->alert/CCS on alert-like payloads, IV/body/MAC byte flips, truncation/extension, drop, dup, swap, forged / other-direction / other-connection records); each runs against both GMSSL suites and both directions: what Read returned must be exactly the predicted prefix and the first affected record must end the connection with a fatal error; single-bit flips over a whole record; the same with the receiver half-closed and with the sequence numbers of the direction at 2^32-2 (accessor VerifSetSeq); every encrypt/decrypt/CCS/error of every run - and of the repository's own gmtls tests, run with the hooks on - is validated by the half-connection trace spec.",
         note="Trusts TLC, the interposer and the hooks (emitted under the half-connection lock). The CBC padding catalogue (every length 0..255, corrupted padding bytes) is produced by TLC itself: RecordSeal.tla derives the session keys from the key log and seals the records that the real receiver must accept or reject. Schedules beyond 2 actions and records beyond 3 are covered by the model only.",
         ref="DESIGN.md section 5 C07"),
     "C08": dict(
@@ -93,9 +93,9 @@ CHECKS = {
         ref="DESIGN.md section 5 C14"),
     "C15": dict(
         level="fault_enumeration",
-        technique="TLA+ spec TLCPPeer (endpoint flight grammar as a state machine + one peer deviation), every (role, position, deviation) explored by TLC to its verdict; each case realised by a message-level interposer between the endpoint under test and an honest gmtls peer",
-        text="TLC enumerates 2.3k cases over 6 endpoint roles (GM client, GM-only server, auto-switch server under GM and TLS, TLS client, TLS server) x client auth on/off x every position of the plaintext flight x {drop, duplicate, swap, inject or substitute each of 16 message kinds incl. RSA certificates where SM2 ones belong, 9 truncations / length-field perturbations, ChangeCipherSpec, application data, warning and fatal alerts, end of stream, ClientHello rewritten to 12 versions / 6 suite lists / no null compression}; the real endpoint must return an error, never report completion, never panic, and return once its input has ended; benign variations (re-fragmentation, a warning alert) must still complete.",
-        note="Deviations are single ops applied to an otherwise honest flight (no keys are needed: the plaintext phase); encrypted-phase deviations (wrong Finished, records after CCS) are covered by C07/C08. Trusts the interposer's handshake-message reassembly. Hang detection: input ended after 0.6 s of silence, then 3 s to return.",
+        technique="TLA+ spec TLCPPeer (endpoint flight grammar as a state machine + one peer deviation), every (role, position, deviation) explored by TLC to its verdict; each case realised by a message-level interposer between the endpoint under test and an honest gmtls peer, by peer fault points, or by hand-written scripted peers with their own transcript, key schedule and record protection (a GMSSL client, GMSSL / TLS servers, a TLS server that renegotiates)",
+        text="TLC enumerates 2.3k cases over 6 endpoint roles (GM client, GM-only server, auto-switch server under GM and TLS, TLS client, TLS server) x client auth on/off x every position of the plaintext flight x {drop, duplicate, swap, inject or substitute each of 16 message kinds incl. RSA certificates where SM2 ones belong, 9 truncations / length-field perturbations, ChangeCipherSpec, application data, warning and fatal alerts, end of stream, ClientHello rewritten to 12 versions / 6 suite lists / no null compression}; the real endpoint must return an error, never report completion, never panic, and return once its input has ended; consistent deviations by scripted peers (CertificateVerify omitted or doubled, Finished before / without ChangeCipherSpec or with a wrong length, application data before Finished, another curve, a second handshake without ChangeCipherSpec); benign variations (re-fragmentation, a warning alert, an honest renegotiation) must still complete.",
+        note="Deviations are single ops applied to an otherwise honest flight (no keys are needed: the plaintext phase); encrypted-phase deviations are made by the scripted peers only (wrong Finished values and records after CCS are C07/C08). Trusts the interposer's handshake-message reassembly. Hang detection: input ended after 0.6 s of silence, then 3 s to return.",
         ref="DESIGN.md section 5 C15"),
     "C16": dict(
         level="model_checking",
